@@ -89,6 +89,12 @@ KERNEL = {   # theorem-name prefix -> kernel name in kernel-specification.yml
     'NumpyArray_reduce_adjust_starts_shifts': 'awkward_NumpyArray_reduce_adjust_starts_shifts_64',
     'Identities_extend': 'awkward_Identities_extend', 'Identities_getitem_carry': 'awkward_Identities_getitem_carry',
     'sort_isort_perm': 'awkward_sort', 'sort_isort_sorted': 'awkward_sort', 'sort_isort_stable': 'awkward_argsort',
+    'sort': 'awkward_sort', 'argsort': 'awkward_argsort',
+    'ListOffsetArray_local_preparenext': 'awkward_ListOffsetArray_local_preparenext_64',
+    # Proofs_C13g.v
+    'ListArray_getitem_jagged_descend': 'awkward_ListArray_getitem_jagged_descend',
+    'ListArray_getitem_jagged_numvalid': 'awkward_ListArray_getitem_jagged_numvalid',
+    'carry_SliceJagged64_offsets': 'awkward_carry_SliceJagged64_offsets',
 }
 import sys
 files = sys.argv[1:] or ['Proofs_C13.v']
